@@ -89,6 +89,9 @@ def r20_open(ctx):
         if bits[2]:
             e['MIDO_DEFAULT_IOPORT'] = 'EIO'
         env_opts.append(e)
+    # the value of a variable is the port name as it stands: blanks around it, or nothing but blanks, are part of it
+    env_opts.append({'MIDO_DEFAULT_INPUT': ' EI ', 'MIDO_DEFAULT_OUTPUT': 'EO ', 'MIDO_DEFAULT_IOPORT': ' EIO'})
+    env_opts.append({'MIDO_DEFAULT_INPUT': ' ', 'MIDO_DEFAULT_OUTPUT': '\t', 'MIDO_DEFAULT_IOPORT': '  '})
     api_opts = [('mod', None, None), ('mod/APIN', None, None), ('mod', 'APIK', None), ('mod', None, 'APIC'), ('mod/APIN', None, 'APIC'),
                 ('mod', 'APIK', 'APIC'), ('mod/APIN', 'APIK', None), ('mod/APIN', 'APIK', 'APIC')]
     for env in env_opts:
@@ -162,7 +165,7 @@ def r20_open(ctx):
                                 ctx.require(ok, 'R20.3', f'{cfg}.wrapper', w, f'without a native IOPort the result must be the ports.IOPort wrapper: {r!r}',
                                             construct=f'{fn.qname}::wrapper')
     ctx.floor('R20-grid', n, 1000)
-    ctx.extra['grid'] = {'environment subsets': 8, 'api sources': 6, 'use_environ': 2, 'native IOPort': 2, 'name': 2, 'calls': 3}
+    ctx.extra['grid'] = {'environment subsets': 10, 'api sources': 6, 'use_environ': 2, 'native IOPort': 2, 'name': 2, 'calls': 3}
 
 
 def r20_backend_name(ctx):
